@@ -9,6 +9,7 @@ import (
 	"io"
 	"os"
 	"os/exec"
+	"slices"
 	"sort"
 	"strings"
 	"sync"
@@ -336,7 +337,19 @@ func execDepDBOp(db *runtime.VerifDatabase, line string) (out string) {
 			return "err"
 		}
 
-		return fmt.Sprintf("deps order=%s set=%s", strings.Join(l, ","), strings.Join(sortedCopy(l), ","))
+		// the list handed to the delivery goroutine must not change when the database changes afterwards (a
+		// registration in progress appends to the same lookup tables): a scratch controller takes a kind-wide input on
+		// the same (namespace,type) and is rolled back again
+		saved := slices.Clone(l)
+		_ = db.AddControllerInput("zz-scratch", controller.Input{Namespace: a["ns"], Type: a["typ"], Kind: controller.InputWeak})
+		changed := !slices.Equal(saved, l)
+		db.RollbackController("zz-scratch")
+
+		if changed {
+			return fmt.Sprintf("deps order=%s set=%s ALIASED:%s", strings.Join(saved, ","), strings.Join(sortedCopy(saved), ","), strings.Join(l, ","))
+		}
+
+		return fmt.Sprintf("deps order=%s set=%s", strings.Join(saved, ","), strings.Join(sortedCopy(saved), ","))
 	case "export":
 		g, err := db.Export()
 		if err != nil {
